@@ -2,7 +2,8 @@
 
 Two real Workflow instances of one class (one gated step StartEvent -> StopEvent) share one
 BasicRuntime; runs r are started with workflow.run(rid=r).  Commands (environment actions of
-RunLimit.tla):  ["start", r]  ["finish", r] (open the step body's gate)  ["cancel", r]
+RunLimit.tla):  ["start", r]  ["finish", r] (open the step body's gate)  ["fail", r] (the gate raises: the
+step fails, the run ends with an error)  ["cancel", r]
 (handler.cancel(), hard abort of the task, only for runs still queued on the semaphore).  A batch of
 commands is issued at a quiescence point, then the loop runs until quiescent again and the abstract
 state is projected.
@@ -90,6 +91,7 @@ class System:
                 out.append(["start", r])
             elif s == "exec":
                 out.append(["finish", r])
+                out.append(["fail", r])
             elif s == "waiting":
                 out.append(["cancel", r])
         return out
@@ -106,6 +108,9 @@ class System:
             elif name == "finish":
                 if not self.gates[r].done():
                     self.gates[r].set_result(None)
+            elif name == "fail":
+                if not self.gates[r].done():
+                    self.gates[r].set_exception(RuntimeError("step failed: " + r))
             elif name == "cancel":
                 self.cancel_req.add(r)
                 self.loop.call_soon(self.handlers[r].cancel)
@@ -160,13 +165,14 @@ def run_schedule(runs, instof, limit, schedule, filter_enabled=False):
         s.close()
 
 
-def explore(runs, instof, limit, max_batch=2, max_cancel=1, max_traces=None):
+def explore(runs, instof, limit, max_batch=2, max_cancel=1, max_traces=None, max_fail=1):
     """Exhaustive DFS over batches of enabled commands, pruned on the projected state (the real
     runtime and workflows are re-created and the path re-executed for every node)."""
     seen = set()
     traces = []
 
     def key(post, ncancel):
+        # the number of runs made to fail so far is visible in pc ("error")
         return (repr(sorted(post["pc"].items())), repr(post["waiters"]), repr(post["value"]), ncancel)
 
     def rec(schedule, ncancel):
@@ -193,6 +199,9 @@ def explore(runs, instof, limit, max_batch=2, max_cancel=1, max_traces=None):
                     continue
                 nc = sum(1 for c in combo if c[0] == "cancel")
                 if ncancel + nc > max_cancel:
+                    continue
+                nf = sum(1 for c in combo if c[0] == "fail") + sum(1 for e in tr for c in e["cmds"] if c[0] == "fail")
+                if nf > max_fail:
                     continue
                 batches.append((list(combo), nc))
         if not batches:
